@@ -2,7 +2,7 @@
    With V V^-1 = 1, D D^-1 = 1, U1 U2^-1 = V D^2 V^-1 and W = D V^-1 U2 (the premises are checked numerically on every
    _compute_gates call, including the degenerate-spectrum repair):   U1 (+) U2 = (V (+) V) (D (+) D^-1) (W (+) W). *)
 From mathcomp Require Import all_ssreflect all_algebra.
-From QV Require Import Demux.
+From QV Require Import Demux Givens.
 Set Implicit Arguments. Unset Strict Implicit. Unset Printing Implicit Defensive.
 Import GRing.Theory.
 Local Open Scope ring_scope.
@@ -30,3 +30,18 @@ Theorem C02_qsd_step : forall (F : fieldType) (m : nat) (U CS Y : 'M[F]_(m + m))
   (bdiag Vr Vr *m bdiag Dr Drinv *m bdiag Wr Wr) *m Y *m (bdiag Vl Vl *m bdiag Dl Dlinv *m bdiag Wl Wl) = U.
 Proof. move=> F m U CS Y u0 u1 v0 v1 Z Vl Dl Dlinv Wl Vr Dr Drinv Wr. exact: qsd_step. Qed.
 Print Assumptions C02_qsd_step.
+
+(* QR scheme, the Givens sequence: eliminating with the factors R_1 .. R_k in turn and applying the recorded inverses in reverse
+   order after the remainder gives the matrix back, for every ring and dimension, provided each recorded inverse is a left
+   inverse of its factor (checked on every run) *)
+Theorem C02_qr_telescoping : forall (R : ringType) (N : nat) (ps : seq ('M[R]_N * 'M[R]_N)),
+  all (fun p => p.2 *m p.1 == 1%:M) ps -> forall U : 'M[R]_N, rebuild ps (eliminate U ps) = U.
+Proof. move=> R N ps. exact: telescoping. Qed.
+Print Assumptions C02_qr_telescoping.
+
+(* the 2x2 core of a factor: rows (conj a, conj b), (b, -a) of the normalised pair send (nrm a, nrm b) to (nrm, 0) *)
+Theorem C02_qr_givens_pair : forall (F : fieldType) (conj : {rmorphism F -> F}) (a b nrm : F),
+  a * conj a + b * conj b = 1 ->
+  conj a * (nrm * a) + conj b * (nrm * b) = nrm /\ b * (nrm * a) + (- a) * (nrm * b) = 0.
+Proof. move=> F conj a b nrm H. exact: givens_pair. Qed.
+Print Assumptions C02_qr_givens_pair.
